@@ -4,6 +4,7 @@
 props="$1"; file="$2"; old="$3"; new="$4"
 here="$(cd "$(dirname "$0")" && pwd)"
 export GOFLAGS=-mod=mod GOPROXY=off GOSUMDB=off GOTOOLCHAIN=local CGO_ENABLED=0; unset GOWORK
+export GOCACHE="${VERIF_SCRATCH_GOCACHE:-/tmp/verif-scratch-gocache}"
 scratch=$(mktemp -d /tmp/mut.XXXXXX); trap 'rm -rf "$scratch"' EXIT
 rsync -a --exclude .git /repo/ "$scratch/repo/"; mkdir -p "$scratch/verif"; cp "$here/known_findings.txt" "$scratch/verif/"
 python3 - "$scratch/repo/$file" "$old" "$new" <<'PY' || exit 3
